@@ -27,6 +27,7 @@ pub unsafe extern "C" fn fdatasync(fd: c_int) -> c_int {
 	if pdbv::iotrack::eio_fd(fd) {
 		return eio()
 	}
+	pdbv::iotrack::before_log_sync(fd);
 	let r = real!("fdatasync", unsafe extern "C" fn(c_int) -> c_int)(fd);
 	if r == 0 {
 		pdbv::iotrack::on_fsync(fd);
@@ -73,7 +74,9 @@ pub unsafe extern "C" fn ftruncate(fd: c_int, len: off_t) -> c_int {
 		return eio()
 	}
 	pdbv::iotrack::on_ftruncate(fd, len);
-	real!("ftruncate", unsafe extern "C" fn(c_int, off_t) -> c_int)(fd, len)
+	let r = real!("ftruncate", unsafe extern "C" fn(c_int, off_t) -> c_int)(fd, len);
+	pdbv::iotrack::after_ftruncate(fd);
+	r
 }
 
 #[no_mangle]
@@ -82,7 +85,9 @@ pub unsafe extern "C" fn ftruncate64(fd: c_int, len: i64) -> c_int {
 		return eio()
 	}
 	pdbv::iotrack::on_ftruncate(fd, len);
-	real!("ftruncate64", unsafe extern "C" fn(c_int, i64) -> c_int)(fd, len)
+	let r = real!("ftruncate64", unsafe extern "C" fn(c_int, i64) -> c_int)(fd, len);
+	pdbv::iotrack::after_ftruncate(fd);
+	r
 }
 
 #[no_mangle]
@@ -95,7 +100,13 @@ pub unsafe extern "C" fn unlink(path: *const c_char) -> c_int {
 			pdbv::iotrack::on_unlink(std::path::Path::new(s));
 		}
 	}
-	real!("unlink", unsafe extern "C" fn(*const c_char) -> c_int)(path)
+	let r = real!("unlink", unsafe extern "C" fn(*const c_char) -> c_int)(path);
+	if !path.is_null() {
+		if let Ok(s) = std::ffi::CStr::from_ptr(path).to_str() {
+			pdbv::iotrack::after_unlink(std::path::Path::new(s));
+		}
+	}
+	r
 }
 
 #[no_mangle]
